@@ -387,7 +387,7 @@ class C16(Prop):
         "C16.musl_eq_spec", "C16.musl_absent_empty", "C16.mac_eq_spec", "C16.mac_formats_eq_table",
         "C16.ios_eq_spec", "C16.ios_newer_superset_partial", "C16.ios_superset_fails_above_9", "C16.ios_within_range",
         "C16.elf_decode_encode", "C16.ph_decode_encode", "C16.interp_is_first_pt_interp",
-        "C16.interp_none_without_pt_interp", "C16.glibc_parse_render",
+        "C16.interp_none_without_pt_interp", "C16.glibc_parse_render", "C16.musl_parse_render",
         "C16.manylinux_newer_superset", "C16.manylinux_newer_superset_model", "C16.musl_newer_superset",
         "C16.mac_newer_superset_10", "C16.mac_newer_superset_11",
         "C16.manylinux_nodup", "C16.musl_nodup", "C16.mac_nodup", "C16.ios_nodup",
@@ -407,7 +407,7 @@ class C16(Prop):
                "(glibc 2.x -> 3.x, macOS 10.x -> 11) is outside the statement",
                "manylinux refinement assumes glibc major >= 2 (for a 0.x/1.x version string the code enumerates that major "
                "series down to x.0; modelled and compared, outside the statement)",
-               "musl version-string round trip and the policy/ABI probes of _linux_platforms are tied by correspondence only",
+               "the policy/ABI probes of _linux_platforms are tied by correspondence only (the musl version-string round trip is musl_parse_render)",
                "real-file semantics of seek/read beyond 2^63 (OSError/ValueError, MemoryError for huge sizes) are not modelled"]
     budget = {"quick": (3000, 2500), "thorough": (50000, 40000)}
 
